@@ -22,13 +22,13 @@ import (
 type SrvDgKind int
 
 const (
-	SdValidA   SrvDgKind = iota // plain message, sender 10.0.0.7:68
-	SdValidB                    // different type / relay-nested, sender 10.0.0.8:1068
-	SdGarbage                   // undecodable
-	SdEmpty                     // zero-length read
-	SdNoIP                      // valid, sender has no IP (nil)
-	SdZeroIP                    // valid, sender 0.0.0.0:1068
-	SdOdd                       // decodable but unusual: hlen 200 (v4) / unknown message type (v6)
+	SdValidA  SrvDgKind = iota // plain message, sender 10.0.0.7:68
+	SdValidB                   // different type / relay-nested, sender 10.0.0.8:1068
+	SdGarbage                  // undecodable
+	SdEmpty                    // zero-length read
+	SdNoIP                     // valid, sender has no IP (nil)
+	SdZeroIP                   // valid, sender 0.0.0.0:1068
+	SdOdd                      // decodable but unusual: hlen 200 (v4) / unknown message type (v6)
 )
 
 var sdNames = [...]string{"validA", "validB", "garbage", "empty", "noip", "zeroip", "odd"}
@@ -42,7 +42,7 @@ type ServerScenario struct {
 	CloseAt  int64 // tick at which another thread calls Close (-1: none)
 	Handler  int   // 0 immediate, 1 sleeps one tick then re-reads its message, 2 mutates its message then sleeps,
 	// 3 blocks until the serve loop has consumed the whole script (outlives every later read)
-	Bound    int
+	Bound int
 }
 
 func (s *ServerScenario) String() string {
@@ -54,13 +54,13 @@ func (s *ServerScenario) String() string {
 }
 
 type srvInvocation struct {
-	serial     int
-	peer       string
-	peerObj    net.Addr
-	atStart    []byte
-	atEnd      func() []byte
-	mutated    bool
-	seq        int
+	serial  int
+	peer    string
+	peerObj net.Addr
+	atStart []byte
+	atEnd   func() []byte
+	mutated bool
+	seq     int
 }
 
 type srvRun struct {
@@ -311,14 +311,8 @@ func (s *ServerScenario) check(run *srvRun, ex *vs.Exec) (string, string) {
 	if !terminated && run.returned {
 		return fail("serve-returned-early", fmt.Sprintf("Serve returned %v although no read failed and Close was not called", run.serveRet))
 	}
-	if run.returned {
-		if run.serveRet == nil {
-			return fail("serve-nil-error", "Serve returned nil")
-		}
-		if !run.conn.closed {
-			return fail("conn-left-open", "Serve returned but the connection is still open")
-		}
-	}
+	// (what Serve returns, and whether it closes the connection on the way out, is not part of the
+	// property statement and is deliberately not asserted)
 	// datagrams actually read
 	read := map[int]bool{}
 	for _, e := range h.Ev {
@@ -386,9 +380,6 @@ func (s *ServerScenario) check(run *srvRun, ex *vs.Exec) (string, string) {
 			if i >= s.EndErrAt && read[i] {
 				return fail("read-after-error", fmt.Sprintf("datagram %d was read after the read error", i))
 			}
-		}
-		if !errors.Is(run.serveRet, errInjectedRead) {
-			return fail("serve-error", fmt.Sprintf("Serve returned %v, want the read error", run.serveRet))
 		}
 	}
 	if !terminated {
